@@ -351,3 +351,38 @@ def run(ck):
         uses = bool(sv) and all(t["args"] and from_sanitized(t["args"][0]) for t in tree)
         ok = len(san) == 1 and all(cfg.ev_dominates(d, san[0], t) for t in tree) and uses
         ck.ob("C10-R4", "sanitize:Router::" + name, ok, fn.loc, fn, "sanitizeResource dominates %d tree operation(s), which take the sanitized path" % len(tree))
+
+    # ---------------- R7: registration never replaces what is there; absent optionals are followed to the end ----------------
+    ck.rule("C10-R7", "B guard dominates store + C must-pass-through",
+            "SegmentTreeNode::addRoute stores into a child slot (splat_, route_) only on the edge that knows the slot is empty, and puts "
+            "children into the per-kind maps only with keep-first insertion — a second route through the same node extends the subtree, "
+            "it never replaces it; and findRoute, once the path is exhausted at a node that has optional children, answers with the "
+            "recursive lookup in the optional child (a chain of absent optionals is followed to its end)", 3)
+    ar = lib.single(prog, N + "addRoute")
+    for fld in ("splat_", "route_"):
+        q = N + fld
+        stores = [e for e in ar.events(("assign", "call")) if (e["k"] == "assign" and strip_tmpl((e.get("lhs") or {}).get("f") or "") == q) or
+                  (e["k"] == "call" and e.get("op") == "=" and strip_tmpl((e.get("recv") or {}).get("f") or "") == q)]
+        empties = lib.relation_edges(ar, lambda r_: strip_tmpl(r_.get("f") or "") == q, lambda r_: "nullptr" in (r_.get("t") or "") or r_.get("const") == "nullptr", ("==",))
+        for e in stores:
+            ok_ = any(cfg.edge_dominates(ar, bid, k_, e) for bid, k_ in empties)
+            ck.ob("C10-R7", "addRoute/%s-stored-only-when-empty" % fld, ok_, e.loc, ar,
+                  "reached only on the `%s == nullptr` edge" % fld if ok_ else
+                  "`%s` is overwritten without knowing that it is empty: registering a second route through this node discards the subtree "
+                  "(and the routes) registered before" % fld)
+    for e in ar.events("call"):
+        if lib.is_stl_mutation(e) and lib.is_assoc_call(e):
+            nm = e.base_callee().rsplit("::", 1)[1]
+            ok_ = nm in ("insert", "emplace", "try_emplace", "emplace_hint") or (nm == "operator[]" and not lib.is_subscript_store(ar, e))
+            ck.ob("C10-R7", "addRoute/children-keep-first:%s" % nm, ok_, e.loc, ar, "child maps are extended with %s" % nm)
+    # findRoute, path exhausted: the edge on which optional_ is not empty leads to the recursive lookup
+    oe = lib.result_edges(f, "std::unordered_map::empty", False)
+    oe = [(bid, k_) for bid, k_ in oe if ("f:" + N + "optional_") in (f.blocks[bid].term.get("refs") or []) and
+          not any(x is e_ for e_ in arm_events for x in f.blocks[bid].elems)]
+    ck.require(oe, "`!optional_.empty()` test of the path-exhausted arm not found in findRoute")
+    is_rec = lambda e: e["k"] == "call" and (e.get("callee") or "") == N + "findRoute" and len(e.get("args") or []) == 3
+    for bid, k_ in oe:
+        bad_ = [x for x in cfg.exits_without(f, is_rec, start_block=f.blocks[bid].succs[k_]) if x.kind != "throw"]
+        ck.ob("C10-R7", "findRoute/absent-optional-followed", not bad_, "%s:%s" % (f.file, f.blocks[bid].term.get("l")), f,
+              "path exhausted and optional children present: the answer is the recursive lookup in the optional child" if not bad_ else
+              "with the path exhausted the optional child is not searched recursively: a route ending in two absent optionals is not found")
